@@ -133,7 +133,12 @@ func (dm *DMap) deleteKey(key string) error {
 	if !f.storage.Check(hkey) {
 		// DeleteMisses is the number of deletions reqs for missing keys
 		DeleteMisses.Increase(1)
-		return nil
+		// The key may still live on a previous owner of the partition or only
+		// on the replicas (after a failover).
+		if dm.s.primary.PartitionByHKey(hkey).OwnerCount() <= 1 &&
+			dm.s.backup.PartitionByHKey(hkey).OwnerCount() == 0 {
+			return nil
+		}
 	}
 
 	return dm.deleteOnCluster(hkey, key, f)
